@@ -60,6 +60,9 @@ type metaScn struct {
 	maxSubs  int
 	// pub/del bookkeeping for C08 probes
 	lastSeq int
+	// quietOwner: the owner stays attached and owner for the whole scenario and the topic is never reloaded
+	// (precondition of the owner-session and proxy-topic replay clauses of C05)
+	quietOwner bool
 }
 
 func (sc *metaScn) script() []string {
@@ -314,6 +317,12 @@ func (sc *metaScn) metaRandomStep() *metaStep {
 	rng := sc.w.rng
 	a := sc.actors[rng.Intn(len(sc.actors))]
 	t := sc.actors[rng.Intn(len(sc.actors))]
+	if sc.quietOwner {
+		for a.role == "owner" {
+			// the owner only watches in these scenarios
+			a = sc.actors[rng.Intn(len(sc.actors))]
+		}
+	}
 	if sc.kind == "p2p" {
 		switch rng.Intn(10) {
 		case 0, 1:
